@@ -120,7 +120,7 @@ def run(ctx):
     dbdir = S.fast_scratch(ctx)
     env = S.Env(dbdir)
     copy_flag = S.source_flags().get("statestore_dictlike_copy_copies_data", "true")
-    n = ctx.n(260, 6000)
+    n = ctx.n(320, 6000)
     cases, exprs, fails = [], [], []
     cov = dict(snap_edit_then_read=0, numeric_first_segment_set=0, fresh_set_state_parent=0,
                subclass_then_clear=0, intermediate_created=0, negative_index=0, err_value=0, err_attr=0,
